@@ -3,13 +3,14 @@ Driver for E6 / forecasting (C19).   msg := [sender, recipient|null, type]
 
   {"op":"enum","grammar":G,"start":"<start>","cap":20,"depth":d,"limit":N}
       → {"certs":{"rank_ok":b,"productive":b,"msg_only":b,"fuel":F},
-         "cases":[{"h":[msg…],"nexts":[msg…],"complete":b,"code":[msg…],"code_fixed":[msg…],"code_fixed_nocap":[msg…],
-                   "code_complete":b,"positions":k,"positions_typeonly":k'}…], "truncated":b}
+         "cases":[{"h":[msg…],"nexts":[msg…],"complete":b,"prefix":b,"nexts_cap":[msg…],"code":[msg…],
+                   "code_nocap":[msg…],"code_complete":b,"positions":k,"positions_typeonly":k'}…], "truncated":b}
         every prefix of every interaction up to `depth` messages (breadth first along `nexts`)
   {"op":"forecast","grammar":G,"start":…,"cap":…,"histories":[[msg…]…]}
       → {"certs":…, "cases":[… as above, plus "prefix":b …]}
-  {"op":"slice","grammar":G,"keep":[party…],"ignore_receivers":b,"by_eq":b} → {"grammar":G'}
-        by_eq = true: children are removed as the code does (`list.remove`, first `==` element)
+  {"op":"slice","grammar":G,"start":"<start>","keep":[party…],"ignore_receivers":b,"real":G''|absent}
+      → {"grammar": sliceG G, "cert": sliceCert (msgLevel G)  -- hypothesis of C19_slice_commutes,
+         "msglevel_sliced": sliceG (msgLevel G), "real_msglevel": msgLevel G'' (when "real" is given)}
 -/
 import Driver.IRJson
 import Model.Forecast
@@ -100,9 +101,8 @@ def caseOf (G : Grammar) (cap F : Nat) (start : Node) (h : List Msg) : Json :=
     ("complete", Json.bool (complete G F start h)),
     ("prefix", Json.bool (isPrefix G F start h)),
     ("nexts_cap", jMsgs (nexts (capG cap G) F start h).eraseDups),
-    ("code", jMsgs (codeNexts false G cap Fc start h)),
-    ("code_fixed", jMsgs (codeNexts true G cap Fc start h)),
-    ("code_fixed_nocap", jMsgs (codeNexts true G 1000000 Fc start h)),
+    ("code", jMsgs (codeNexts G cap Fc start h)),
+    ("code_nocap", jMsgs (codeNexts G 1000000 Fc start h)),
     ("code_complete", Json.bool (codeComplete G F start h)),
     ("positions", Json.num (JsonNumber.fromNat ps.length)),
     ("positions_typeonly", Json.num (JsonNumber.fromNat
@@ -147,12 +147,22 @@ def handle (j : Json) : Except String Json := do
       ("truncated", Json.bool trunc)]
   | "slice" =>
     let G ← grammarOf (← j.getObjVal? "grammar")
+    let startName ← j.getObjValAs? String "start"
     let keep ← (← (← j.getObjVal? "keep").getArr?).toList.mapM (fun x => x.getStr?)
     let ign ← j.getObjValAs? Bool "ignore_receivers"
-    let byEq ← j.getObjValAs? Bool "by_eq"
-    let G' := sliceG ⟨keep, ign, byEq⟩ G
-    return Json.mkObj [("grammar", Json.mkObj [("rules",
-      Json.arr (G'.rules.map (fun p => Json.arr #[Json.str p.1, jNode p.2])).toArray)])]
+    let cfg : SliceCfg := ⟨keep, ign⟩
+    let jG (g : Grammar) : Json := Json.mkObj [("rules",
+      Json.arr (g.rules.map (fun p => Json.arr #[Json.str p.1, jNode p.2])).toArray)]
+    let GM := msgLevel G startName
+    let realML ← match j.getObjVal? "real" with
+      | .ok rj => do
+        let R ← grammarOf rj
+        pure (jG (msgLevel R startName))
+      | .error _ => pure Json.null
+    return Json.mkObj [("grammar", jG (sliceG cfg G)),
+      ("cert", Json.bool (sliceCert GM)),
+      ("msglevel_sliced", jG (sliceG cfg GM)),
+      ("real_msglevel", realML)]
   | _ => throw s!"unknown op {op}"
 
 def main : IO Unit := run handle
